@@ -50,8 +50,6 @@ impl std::task::Wake for L3Waker {
     }
 }
 
-/// Runs a future on the current simulated thread. The future lives in a quarantine cell: after
-/// it is dropped its memory is poisoned and checked for later writes at the end of the run.
 thread_local! {
     /// what the thread simulator injected (all coroutines of an execution run on one OS thread)
     static L3_COUNTS: std::cell::RefCell<BTreeMap<&'static str, u64>> = const { std::cell::RefCell::new(BTreeMap::new()) };
@@ -66,6 +64,8 @@ fn take_counts() -> BTreeMap<&'static str, u64> {
     L3_COUNTS.with(|c| std::mem::take(&mut *c.borrow_mut()))
 }
 
+/// Runs a future on the current simulated thread. The future lives in a quarantine cell: after
+/// it is dropped its memory is poisoned and checked for later writes at the end of the run.
 pub fn block_on<F: std::future::Future>(fut: F) -> F::Output {
     use std::sync::atomic::Ordering::SeqCst;
     let mut cell = crate::quarantine::QCell::new(fut, "future awaited by a simulated thread");
@@ -287,6 +287,9 @@ impl Scheduler for SeededScheduler {
             s.trace = Trace::default();
             s.steps = 0;
             return Some(Schedule::new(0));
+        }
+        while self.next_run < self.end_run && crate::core::skip_run(self.next_run) {
+            self.next_run += 1;
         }
         if self.next_run >= self.end_run {
             return None;
@@ -587,6 +590,7 @@ pub fn run_batch(def: &'static ThreadScenDef, seed: u64, first_run: u64, runs: u
                                 out.preemptions += s.preemptions;
                                 if fs.iter().any(|f| f.prop == gate || f.prop == "HARNESS") {
                                     if out.found.len() < max_found {
+                                        crate::core::note_found(run);
                                         out.found.push(L3Found { run_index: run, cfg: s.cfg.clone(), trace: s.trace.clone(), fails: fs });
                                     }
                                     if stop_on_first {
